@@ -83,6 +83,29 @@ NOTES.update({
  'C19-work-array-dtype-follows-F': ('integer-typed F with fractional Q', 'C08 caught it at once; C19 missed it until integer-valued argument forms were added'),
 })
 
+NOTES.update({
+ 'C09-body-rate-from-scaled-increment': ('a lever-arm NedVelocity sample stamped exactly on an IMU sample (0/0 body rate)', 'initially missed (no lever arms in the E2 alphabet); caught after lever-arm sensors were added'),
+ 'C09-loop-bound-off-by-one': ('a batch boundary on the last-but-one IMU sample', 'caught by C09 as built'),
+ 'C10-one-epoch-per-interval': ('two distinct stamps between the same two trajectory rows', 'caught by C10 as built (the defect this repository had before its fix commit)'),
+ 'C10-loop-stops-one-interval-early': ('a schedule that visits the last-but-one row', 'caught by C10 as built'),
+ 'C02-zero-rotation-early-out-stale-matrix': ('an exactly-zero gyro increment following a non-zero one inside one multi-row call', 'initially missed; caught after the dead-band increments kind (rows with theta == 0) was added'),
+ 'C02-leading-increment-at-current-time-dropped': ('repeated time stamps / a first stamp equal to the start time', 'initially missed; caught after the duplicate-stamp increments kind was added'),
+ 'C12-bias-update-state-number-as-axis': ('feedback filter with a model whose bias axes are not a prefix of x,y,z', 'C14 kills it; C12 missed it until the subset-axes model class was added'),
+ 'C12-fb-plain-average-of-endpoints': ('heading crossing +-180 deg inside covariance steps (southbound weave)', 'initially missed; caught after the southbound-weave motion was added (also to C11)'),
+ 'C11-step-not-resnapped-forced-advance': ('time_step shorter than the trajectory sampling interval', 'initially missed; caught after time_step 0.02 s (below the 0.05 s rows) was added'),
+ 'C11-window-lower-bound-side-right': ('a measurement stamped exactly on the first trajectory row', 'initially missed by C11 (no fix on row 0; C10 kills it); caught after a fix on the first row was added'),
+ 'C13-perturb-lla-ecef-path-long-displacement': ('2D feedback mode with a position correction above ~638 m', 'initially missed; caught after kilometre-size position fixes were added'),
+ 'C13-measurement-dropna': ('2D mode with NaN in the vertical column of NedVelocity data (horizontal-only fixes)', 'initially missed; caught after horizontal-only velocity fixes and the use-once oracle in 2D were added'),
+ 'C14-class-level-estimate-arrays': ('two model objects in one process and an update on a model that was not reset', 'caught by C14 as built'),
+ 'C14-parameter-table-isclose': ('parameter values below 1e-8 / 1e-5 relative', 'initially missed; caught after the nano-scale value set was added'),
+ 'C06-position-lever-gated-by-rates': ('Position with lever arm and a pva without body rates', 'caught by C06 as built'),
+ 'C06-noise-matrix-cached-per-object': ('one measurement object evaluated under both altitude modes', 'initially missed; caught after one object was evaluated under both modes in both orders (C12 re-run sequences now alternate modes too)'),
+ 'C04-phi-dr-block-sign': ('a north position error on a slow vehicle; resolution 1e-11 rad/s per metre', 'caught by C04 as built'),
+ 'C04-gravity-hoisted-to-sea-level': ('high altitude and a tilt error', 'caught by C04 as built'),
+ 'C18-resample-nothing-to-interpolate-shortcut': ('requested grid with as many stamps and the same ends as the table but different interior', 'initially missed; caught after the same-count/same-ends query and the jittered pair were added'),
+ 'C18-denser-test-mean-vs-median': ('a dense table with a recording gap against a sub-sampling of a dense stretch', 'caught by C18 as built (clustered sub-samplings)'),
+})
+
 base = '/verif/seeded'
 for d in sorted(os.listdir(base)):
     p = os.path.join(base, d, 'meta.json')
